@@ -405,7 +405,7 @@ func c06Grid(tier string) []c06Case {
 
 func c06Spec(g c06Case, r *rand.Rand) *scriptSpec {
 	ids := &idGen{}
-	spec := &scriptSpec{InboxSize: g.inbox, MaxRestarts: g.maxR, RestartDelay: pick(r, 0, 100*time.Microsecond), CrashInit: map[int]bool{}, CrashStart: map[int]bool{}, Children: g.children}
+	spec := &scriptSpec{InboxSize: g.inbox, MaxRestarts: g.maxR, RestartDelay: pick(r, 0, 100*time.Microsecond), CrashInit: map[int]bool{}, CrashStart: map[int]bool{}, Children: g.children, ViaPeer: g.children == 0}
 	var tail []item
 	switch g.backlog {
 	case "backlog":
@@ -452,6 +452,10 @@ func c06Spec(g c06Case, r *rand.Rand) *scriptSpec {
 		}
 		bodies = append(bodies, msgs(ids, 2))
 		spec.Segments = buildSegments(ids, bodies...)
+		if g.maxR >= 1 && g.maxR <= 2 && g.inbox == 1 && g.backlog != "backlog" {
+			// failures that are far apart (an actor that fails once in a while): the budget is not refilled by quiet time
+			spec.QuietGap = 150*time.Millisecond + 30*spec.RestartDelay
+		}
 	case "internal":
 		// the budget is used up, then an InternalError restart (which does not count), then the exhausting panic
 		var b []item
